@@ -97,6 +97,13 @@ func c03Chain(k int, special int, specialPos int, tier int, reparse bool) {
 			ph, t := newOp(false)
 			sb.WriteString("(" + n + " " + ph + " z)")
 			xs = append(xs, &ParenExpr{Expr: &BinaryExpr{Op: t, LHS: &VarRef{Val: n}, RHS: &VarRef{Val: "z"}}})
+		case special == 6 && specialPos == i: // doubly parenthesised sub-chain: every pair is its own node
+			ph, t := newOp(false)
+			sb.WriteString("((" + n + " " + ph + " z))")
+			xs = append(xs, &ParenExpr{Expr: &ParenExpr{Expr: &BinaryExpr{Op: t, LHS: &VarRef{Val: n}, RHS: &VarRef{Val: "z"}}}})
+		case special == 7 && specialPos == i: // doubly parenthesised lone operand
+			sb.WriteString("((" + n + "))")
+			xs = append(xs, &ParenExpr{Expr: &ParenExpr{Expr: &VarRef{Val: n}}})
 		default:
 			sb.WriteString(n)
 			xs = append(xs, &VarRef{Val: n})
@@ -139,7 +146,7 @@ func vfH_C03_chain(tier int) {
 		maxK = 5
 	}
 	k := 2 + vfChoice(maxK-1)
-	special := vfChoice(6) // 0 plain, 1 negated operand, 2 parenthesised sub-chain, 3 regex operator, 4 negated call, 5 negated parenthesised sub-chain
+	special := vfChoice(8) // 6 doubly parenthesised sub-chain, 7 parenthesised lone operands; 0 plain, 1 negated operand, 2 parenthesised sub-chain, 3 regex operator, 4 negated call, 5 negated parenthesised sub-chain
 	pos := 0
 	if special != 0 {
 		if special == 3 {
